@@ -284,6 +284,7 @@ func execChanSeq(ops []Op) []string {
 	case r := <-done:
 		return r.lines
 	case <-hangAfter(c13BlockTimeout()):
+		noteHang()
 		atomic.AddInt32(&c13Blocked, 1)
 		return []string{"X blocked => a channel operation that Go semantics makes non-blocking did not return (case starts with: " + opsToStrings(ops)[0] + ")"}
 	}
@@ -709,6 +710,19 @@ func c13RunChild(run *Run) c13ChildResult {
 
 // c13Exec runs one child (exe in run mode `mode`) and collects its request lines, notes, counters and race reports.
 func c13Exec(run *Run, res *c13ChildResult, exe, mode string) {
+	// a child the hang watchdog ended is run once more (a real dead-lock or a looping VM repeats; a starved machine does not)
+	if !c13Exec1(run, res, exe, mode) {
+		return
+	}
+	second := c13ChildResult{stats: map[string]int{}, raceMode: res.raceMode}
+	if !c13Exec1(run, &second, exe, mode) {
+		second.races = append(res.races, second.races...)
+		second.notes = append(second.notes, "the "+mode+" child was run twice: the first run was ended by the hang watchdog on a loaded machine")
+		*res = second
+	}
+}
+
+func c13Exec1(run *Run, res *c13ChildResult, exe, mode string) (hung bool) {
 	work := filepath.Join(verifRoot(), ".work")
 	logPrefix := filepath.Join(work, fmt.Sprintf("race_C13_%d_%s", os.Getpid(), mode))
 	old, _ := filepath.Glob(logPrefix + ".*")
@@ -730,7 +744,6 @@ func c13Exec(run *Run, res *c13ChildResult, exe, mode string) {
 			limit = 6 * time.Minute
 		}
 	}
-	hung := false
 	if err := cmd.Start(); err != nil {
 		res.lines = append(res.lines, "X child-start => "+err.Error())
 		return
@@ -743,6 +756,7 @@ func c13Exec(run *Run, res *c13ChildResult, exe, mode string) {
 			res.lines = append(res.lines, "X child-exit => "+err.Error()+" "+c13Trunc(stderr.String(), 400))
 		}
 	case <-hangAfterCap(limit, 4):
+		noteHang()
 		cmd.Process.Kill()
 		<-waitc
 		hung = true
@@ -788,6 +802,7 @@ func c13Exec(run *Run, res *c13ChildResult, exe, mode string) {
 	}
 	all.WriteString(res.stderr)
 	res.races = c13ParseRaces(all.String())
+	return hung
 }
 
 func c13Trunc(s string, n int) string {
